@@ -106,7 +106,7 @@ def oracle_case(rng):
     tree = refimpl.tokenize(pat)
     d = gen.gen_date(rng, dt.date(1000, 1, 1), dt.date(9990, 12, 31))
     if any(p in refimpl.parts_of(tree) for p in ("YY", "0Y", "GG", "0G")):
-        d = d.replace(year=2001 + d.year % 98)
+        d = d.replace(year=2001 + d.year % 98, day=min(d.day, 28))
     st = refimpl.gen_state(rng, tree, d, gen)
     old = refimpl.render(tree, st)
     flags = gen_flags(rng)
